@@ -109,6 +109,7 @@ def main(argv=None):
     prop = args.prop.upper()
     seed = int(os.environ.get('VERIF_SEED', '0') or 0)
     sys.path.insert(0, str(core.REPO))
+    core.run_dir()      # created before any fork so that every worker's world lives under it
     mod = load_module(prop)
     findings = core.Findings()
 
@@ -132,6 +133,11 @@ def main(argv=None):
     t0 = time.time()
     ctx = Ctx(prop, args.tier, seed)
     try:
+        pre = getattr(mod, 'PREFORK_WORLD', None)
+        if pre is not None:
+            # build the world once; fork()ed workers inherit a private copy of the in-memory database
+            from . import world as W
+            W.World.shared(**pre)
         mod.run(ctx)
     except core.HarnessError as e:
         print('HARNESS-ERROR:', e)
@@ -140,6 +146,8 @@ def main(argv=None):
         print('HARNESS-ERROR: check raised')
         traceback.print_exc()
         return 2
+    import shutil
+    shutil.rmtree(core.VERIF / 'replay' / prop, ignore_errors=True)
     new, seen_known = report(prop, mod, ctx.acc, findings, confirm=not args.no_confirm)
     wall = time.time() - t0
     extra = dict(ctx.extra)
